@@ -43,3 +43,8 @@ chk("C09", "fault_enumeration",
     "For every block insertion and every fork switch of every explored history (BFS over 11 actions: txs with receipts, identity updates, snapshot blocks, the epoch macro incl. the epoch-finishing block, 4 fork-switch actions; 4 scenarios incl. a 101-block chain where insertions prune old tree versions) every prefix of the recorded write log is crash-tested: normal start-up, head roots == loaded trees, head within the retained window and on the reference chain, catch-up to the reference head and roots, canonical / identity-diff / tx indexes equal the reference's; a clean restart changes nothing observable.",
     "Crash model: prefix of the write log, batches atomic (goleveldb journal); torn single writes and reordering below LevelDB out of scope; AtomicSwitchToPreliminary not driven yet.",
     "DESIGN.md 5/C09", "chainmc+crashdb")
+chk("C03", "model_checking",
+    "explicit-state BFS producing the corpus of honest blocks; exhaustive application of a tampering-operator set per block against a validator replica; building-path rebuild as consistency oracle",
+    "Every honest block of the search (proposed/empty, with receipts, identity-update, snapshot, ceremony-period, epoch-finishing) x ~70 header operators (bit flips, +-1, nil/zero, another block's value, time-window violations, foreign proposer keys, every persistent flag bit, unknown upgrade) x body edits (drop/duplicate/swap/append foreign-epoch or unaffordable tx, with and without recomputed commitments). A tampered block must be rejected unless the building path derived from ProposeBlock reproduces it; after every rejection the validator's database image, head, tree versions and working roots are unchanged; the honest original is inserted afterwards.",
+    "The proposer's free choices (time inside the window, offline flags, upgrade bits, absent fee rate, VRF proof randomness) are not tampered with; CIDs via memoryIpfs.",
+    "DESIGN.md 5/C03", "chainmc")
